@@ -43,7 +43,7 @@ def cases(draw, max_leaves):
     op = draw(st.sampled_from(OPS + ["reroot_at_midpoint", "to_outgroup_position", "reroot_at_edge"]))
     pats = ("none", "unit", "smallint", "dyadic", "float", "partial")
     if op == "reroot_at_midpoint":
-        pats = ("unit", "unit", "smallint", "dyadic", "float")
+        pats = ("unit", "unit", "smallint", "dyadic", "float", "decimal", "decimal")
     sl = draw(shapes.with_lengths(shapes.shapes(min_leaves=2 if op == "reroot_at_midpoint" else 3, max_leaves=max_leaves,
                                                 max_arity=4, unifurcations=True), patterns=pats))
     return {"spec": sl["spec"], "lenpat": sl["lenpat"], "rooted": draw(st.sampled_from([True, False, None])), "op": op,
@@ -53,19 +53,24 @@ def cases(draw, max_leaves):
             # a tree may carry a length on the edge subtending its seed ("(...):0.5;"): it belongs to the total length
             "root_len": draw(st.sampled_from([None, None, None, 0.5, 2.0, 0.0])),
             # internal nodes / the seed may carry taxa of their own; the clauses speak about leaf taxa
-            "inner": draw(shapes.inner_taxa_picks())}
+            "inner": draw(shapes.inner_taxa_picks()),
+            # midpoint only: the tree was midpoint-rooted before and its rooting flag re-declared, so the midpoint now
+            # sits on an existing node - exactly, or up to the rounding of a differently ordered sum
+            "pre_mid": draw(st.booleans())}
 
 
 @st.composite
 def history_cases(draw, max_leaves):
     sl = draw(shapes.with_lengths(shapes.shapes(min_leaves=4, max_leaves=max_leaves, max_arity=3, unifurcations=False),
-                                  patterns=("unit", "smallint", "dyadic", "float", "dyadic")))
+                                  patterns=("unit", "smallint", "dyadic", "float", "dyadic", "decimal")))
     ops = []
     for _ in range(draw(st.integers(2, 4))):
         ops.append({"op": draw(st.sampled_from(["reroot_at_midpoint", "reroot_at_midpoint", "reroot_at_node", "reseed_at", "reroot_at_edge",
                                                "to_outgroup_position", "randomly_reorient", "ladderize"])),
                     "target": draw(st.integers(0, 200)), "frac": draw(st.integers(0, 8)), "ub": draw(st.booleans()), "su": True,
-                    "cb": draw(st.booleans()), "asc": draw(st.booleans()), "seed": draw(st.integers(0, 2 ** 31))})
+                    "cb": draw(st.booleans()), "asc": draw(st.booleans()), "seed": draw(st.integers(0, 2 ** 31)),
+                    # the rooting flag may be re-declared between two operations (tree.is_rooted = ...)
+                    "pre_flag": draw(st.sampled_from(["keep", "keep", "keep", True, False, None]))})
     return {"spec": sl["spec"], "lenpat": sl["lenpat"], "rooted": draw(st.sampled_from([True, False, None])), "ops": ops}
 
 
@@ -89,6 +94,11 @@ def check_case(ctx, case):
             # a seed with a single child that carries a taxon is a tip in all but name (it becomes a leaf as soon as
             # the tree is re-seeded elsewhere): not an internal node in the sense of the statement
             tree.seed_node.taxon = None
+    if case.get("pre_mid") and case["op"] == "reroot_at_midpoint" and len(tree.seed_node._child_nodes) != 1:
+        # (a seed of outdegree 1 is the domain of the recorded finding C07.phantom_leaf:seed_outdegree_1)
+        ctx.call("C07.reroot_at_midpoint", tree.reroot_at_midpoint)
+        tree.is_rooted = case["rooted"]
+        ctx.cls("midpoint:tree_was_midpoint_rooted_before")
     pre, problems = snapshot(tree)
     if problems:
         raise runner.HarnessError("built tree not well formed: %r" % problems)
@@ -114,6 +124,9 @@ def check_history(ctx, case):
         if any(pre.taxon[i] is None for i in pre.leaves()):
             return  # phantom leaf from the known outdegree-1-seed finding: history ends
         step = dict(opc)
+        if k and step.get("pre_flag", "keep") != "keep":
+            tree.is_rooted = step["pre_flag"]
+            ctx.cls("history:flag_redeclared_between_steps")
         step["rooted"] = tree.is_rooted
         step["lenpat"] = case["lenpat"]
         step["encode_first"] = False
